@@ -153,7 +153,11 @@ def gen_case(rng, tier, ci):
             ops.append([6, q, et, 0, 0])
         elif k < 0.6:
             # explicit thresholds 0, 1 and around the maximum error (has = 2: threshold = max 0 (maximum error + delta))
-            if rng.random() < 0.4:
+            # (NO_FALSE_NEGATIVES below the maximum error runs into the recorded finding for untracked items: only in the
+            #  small_thr cases, so that most cases stay free of known findings and count as validated traces)
+            if et == 1 and not small_thr:
+                ops.append([6, q, et, 2, rng.choice([0, 0, 1, 5])])
+            elif rng.random() < 0.4:
                 ops.append([6, q, et, 1, rng.choice([0, 0, 1])])
             else:
                 ops.append([6, q, et, 2, rng.choice([-1, -1, 0, 0, 1, -2, -5, -(10 ** 6)])])
@@ -221,7 +225,8 @@ def gen_case(rng, tier, ci):
     for et in (0, 1):
         ops.append([6, a, et, 0, 0])
     for et, has, thr in ((1, 1, 0), (1, 1, 1), (1, 2, -1), (1, 2, 0), (0, 2, -1)):
-        ops.append([6, a, et, has, thr])
+        if small_thr or et == 0 or (has, thr) == (2, 0):
+            ops.append([6, a, et, has, thr])
     freq(a); freq(a)
     pool = sorted(seen[a])
     rng.shuffle(pool)
